@@ -44,7 +44,7 @@ package types
 
 //@ assume types.(*Event).GetDataSize
 //@   modifies e.dataSize
-//@ assume types.(*Span).GetDataSize
+//@ assume types.(*Span).GetDataSize getter
 //@   modifies sp.Event.dataSize
 //@ contract types.(*Payload).IsEmpty inline
 
@@ -54,4 +54,14 @@ package types
 //@   let sel = opt.Config.DetermineSamplerKey(opt.APIKey, opt.Env, opt.Dataset)
 //@   ensures[fields-of-the-selected-definition] result.samplingKeyFields == result0of(config.GetKeyFields(opt.Config.GetSamplingKeyFieldsForDestName(sel)))
 //@   ensures[id-fields-as-configured] result.traceIdFieldNames == opt.Config.GetTraceIdFieldNames() && result.parentIdFieldNames == opt.Config.GetParentIdFieldNames()
+//@   modifies nothing
+
+// ---- C07: the impact estimate that orders memory-pressure ejection ("heaviest estimated impact first"): a span
+// weighs its data size once, plus once more for every quarter of the trace timeout it has been buffered.
+//@ contract types.(*Span).CacheImpact props C07
+//@   arith math
+//@   assert only none
+//@   requires sp != nil
+//@   domain[timeout-positive-and-arrival-not-in-the-future] traceTimeout > 0 && !wallclock(1).Before(sp.ArrivalTime)
+//@   ensures[size-weighted-by-age-in-quarters-of-the-timeout] result == (4 * toInt(wallclock(1).Sub(sp.ArrivalTime)) / toInt(traceTimeout) + 1) * sp.GetDataSize()
 //@   modifies nothing
